@@ -57,6 +57,13 @@ def run(ctx):
         desc.update(t_ref_kind=pb.dspec["t_ref_kind"], K=pb.ps["K"]["kind"])
         # (iii) reference epoch
         ctx.evaluations += 1
+        if pb.dspec.get("t_ref_kind") == "none":
+            # data built with t_ref=False carry no reference epoch: the samples must not invent one; without an epoch
+            # twobody cannot rebuild the orbit (get_orbit fails loudly), so there is no reconstruction to compare
+            if out.t_ref is not None:
+                ctx.violation("samples-t_ref-wrong", "data have no reference epoch (t_ref=False) but samples.t_ref=%r" % (out.t_ref,), desc)
+            ctx.count("sessions_without_reference_epoch")
+            continue
         if out.t_ref is None or abs(float(out.t_ref.tcb.mjd) - lin.t_ref) > 1e-9:
             ctx.violation("samples-t_ref-wrong", "samples.t_ref=%r but the data's reference epoch is %.6f"
                           % (out.t_ref, lin.t_ref), desc)
